@@ -21,10 +21,14 @@ def gen_bundle_program(seed):
         scal = list(range(n_in))          # indices of scalar signal decls (typed inputs)
         bundles = {}                      # decl index -> set of member types
 
-        def scalar_operand(members=()):
-            # a signal operand whose type is a member of the bundle is in the region of known finding S24
-            # (operand and bundle are not reliably kept on different colours)
+        def scalar_operand(members=(), arith=False):
+            # a signal operand whose type is a member of the bundle is in the region of known finding S24 for
+            # filters and gating (operand and bundle are not reliably kept on different colours).  Each-arithmetic
+            # asks for wire separation, so there a SEPARATE signal on a member's type is fine (and must not be
+            # added to that member): `twins` are extra inputs declared on a member's type
             free = [i for i in scal if decls[i][2] not in members]
+            if arith:
+                free += [i for i in twins if decls[i][2] in members]
             x = r.random()
             if x < 0.5 and free:
                 return ("var", r.choice(free))
@@ -48,12 +52,16 @@ def gen_bundle_program(seed):
                 mem.append((t, ("lit", t, ("int", r.choice([1, 3, 10, -5, 0, 50])))))
                 used.add(t)
         new_bundle(("blit", mem), used)
+        twins = []
+        if r.random() < 0.6:
+            decls.append(("in", next(names), r.choice(sorted(used)), r.choice([2, 3, 5, 7, 10, -4])))
+            twins.append(len(decls) - 1)
         for _ in range(r.randint(2, 5)):
             x = r.random()
             src = r.choice(list(bundles))
             if x < 0.3:
                 op = r.choice(["+", "-", "*", "/", "%", "AND", "OR", "XOR", "<<", ">>"])
-                opd = scalar_operand(bundles[src])
+                opd = scalar_operand(bundles[src], arith=True)
                 if op in ("<<", ">>"):
                     opd = ("int", r.randint(0, 8))
                 if op in ("/", "%") and opd[0] == "int":
